@@ -694,6 +694,7 @@ def kernel_value_table(ctx, clause: str, what: str):
         k = seq.index(eos)
         return list(seq[:k + 1]) if inc else list(seq[:k])
     bad, n_rows = None, 0
+    hyps_full, unit_, uneq_ = hyps, (Fr(1), Fr(1), Fr(1)), (Fr(1), Fr(2), Fr(3))
     try:
         # (the last triple: costs larger than any finite stand-in for 'no such transition' could be chosen with)
         for costs in ((Fr(1), Fr(1), Fr(1)), (Fr(1), Fr(2), Fr(3)), (Fr(2), Fr(2), Fr(2)), (Fr(1, 2), Fr(1), Fr(3, 2)), (Fr(10**9), Fr(3 * 10**9), Fr(10**9 + 1)),
@@ -702,9 +703,13 @@ def kernel_value_table(ctx, clause: str, what: str):
                 for inc in ((True, False) if eos is not None else (False,)):
                     for bf in (False, True):
                         for norm in (False, True):
-                            for prefix in ((False, True, "without the full prefix") if what == "distance" else (False,)):
+                            for prefix in ((False, True, "without the full prefix") if what == "distance" else (False,)) + (("no hypothesis steps", "no hypothesis steps, per prefix") if what == "distance" and costs in (unit_, uneq_) else ()):
                                 if (costs[0] > 1000 or costs[2].denominator > 1000) and (bf or norm):
                                     continue
+                                # (a batch whose hypotheses are all empty: a hypothesis tensor without a step axis entry - the loop over steps never runs)
+                                hyps = hyps_full
+                                if isinstance(prefix, str) and prefix.startswith("no hypothesis"):
+                                    hyps, prefix = [[] for _ in hyps_full], prefix.endswith("per prefix")
                                 excl = prefix == "without the full prefix"
                                 warn = costs == (Fr(1), Fr(2), Fr(3)) and not bf and not prefix  # (with the diagnostics on: the same values)
                                 holder = {}
@@ -727,7 +732,7 @@ def kernel_value_table(ctx, clause: str, what: str):
                                 for a_, d_ in zip(reversed(f.node.args.args), reversed(f.node.args.defaults)):
                                     if isinstance(d_, ast.Constant):
                                         env[a_.arg] = d_.value
-                                ref, hyp = frac_array(refs).T, frac_array(hyps).T  # (R, N), (H, N)
+                                ref, hyp = frac_array(refs).T, (frac_array(hyps).T if hyps[0] else np.empty((0, len(hyps)), dtype=object))  # (R, N), (H, N)
                                 env.update(ref=ref.T if bf else ref, hyp=hyp.T if bf else hyp, eos=eos, include_eos=inc, batch_first=bf,
                                            ins_cost=costs[0], del_cost=costs[1], sub_cost=costs[2], warn=warn, norm=norm, padding=PAD,
                                            return_prf_dsts=bool(prefix), return_mistakes=(what == "count"), return_mask=False, exclude_last=excl)
